@@ -157,7 +157,7 @@ class MayErr:
                 return why
         return None
 
-    def errish(self, e, b):
+    def errish(self, e, b, _depth=0):
         """None if e cannot be Err, else a short reason."""
         if not isinstance(e, tuple) or not e:
             return None
@@ -218,6 +218,16 @@ class MayErr:
                 self.memo[tag] = r
                 return ("awaits %s" % short(c)) if r else None
             return "awaits %s" % short(c)
+        if k in ("var", "tmp") and _depth < 5:
+            # a local assigned on several paths (e.g. the result slot of an inlined helper): every
+            # definition must be infallible
+            l = b.name_local.get(e[1]) if k == "var" else e[1]
+            if isinstance(l, int) and not (1 <= l <= b.arg_count) and b.defs.get(l) and not b.partial_defs.get(l):
+                for bi, si in b.defs[l]:
+                    w = self.errish(b.def_expr(bi, si, True), b, _depth + 1)
+                    if w:
+                        return w
+                return None
         if k in ("var", "tmp", "field", "downcast", "await"):
             return "returns %s" % show(e)
         return None
